@@ -1,10 +1,15 @@
 package callsim
 
 import (
+	"bytes"
 	"encoding/binary"
+	"encoding/json"
 	"errors"
 	"fmt"
 	"hash/fnv"
+	"io"
+	"os"
+	"os/exec"
 	"runtime/debug"
 	"sort"
 	"strings"
@@ -311,6 +316,18 @@ func (x *executor) doCall(ti, ci int, ctx *callCtx) {
 			}
 		}
 	case KPiece:
+		if call.RetryOf > 0 {
+			// the caller retries an aborted piece with the same tensors
+			prev := &x.results[ti][call.RetryOf-1]
+			if prev.inObjs == nil {
+				res.Skipped = true
+				return
+			}
+			for k, t := range prev.inObjs {
+				in[k] = t
+			}
+			break
+		}
 		for k, v := range call.Inputs {
 			in[k] = v.Tensor()
 		}
@@ -495,6 +512,55 @@ type refResult struct {
 
 type refCache struct {
 	m map[uint64]*refResult
+	// pristine: compute every Run reference in its own brand-new OS process instead of on a fresh Model inside
+	// this (long-lived, possibly "warm") process. Slower by orders of magnitude, so it is used on a sample of
+	// worlds; it is what exposes state that outlives Models (package-level caches keyed by a name or a shape),
+	// which a fresh Model in the same process would see just as well as the Model under test.
+	pristine bool
+}
+
+// refRequest / refReply: the wire format of `simcheck refcall`.
+type refRequest struct {
+	Bytes  []byte            `json:"bytes"`
+	Inputs map[string]*val.V `json:"inputs"`
+	Fault  *OpFault          `json:"fault,omitempty"`
+}
+
+type refReply struct {
+	Kind string            `json:"kind"`
+	Err  string            `json:"err"`
+	Out  map[string]*val.V `json:"out"`
+}
+
+// RefCall serves one reference computation (the body of `simcheck refcall`).
+func RefCall(in io.Reader, out io.Writer) error {
+	var rq refRequest
+	if err := json.NewDecoder(in).Decode(&rq); err != nil {
+		return err
+	}
+	rc := &refCache{m: map[uint64]*refResult{}}
+	r := rc.fresh(&ModelSpec{Bytes: rq.Bytes}, rq.Inputs, rq.Fault, false)
+	return json.NewEncoder(out).Encode(&refReply{Kind: r.Kind, Err: r.Err, Out: r.Out})
+}
+
+func pristineFresh(spec *ModelSpec, in map[string]*val.V, fault *OpFault) *refResult {
+	self, err := os.Executable()
+	if err != nil {
+		panic(err)
+	}
+	rq, _ := json.Marshal(&refRequest{Bytes: spec.Bytes, Inputs: in, Fault: fault})
+	cmd := exec.Command(self, "refcall")
+	cmd.Stdin = bytes.NewReader(rq)
+	var so, se bytes.Buffer
+	cmd.Stdout, cmd.Stderr = &so, &se
+	if err := cmd.Run(); err != nil {
+		panic(fmt.Sprintf("pristine reference process failed: %v: %s", err, se.String()))
+	}
+	var rp refReply
+	if err := json.Unmarshal(so.Bytes(), &rp); err != nil {
+		panic(fmt.Sprintf("pristine reference reply: %v", err))
+	}
+	return &refResult{Kind: rp.Kind, Err: rp.Err, Out: rp.Out}
 }
 
 func hashInputs(h interface{ Write([]byte) (int, error) }, in map[string]*val.V) {
@@ -519,6 +585,11 @@ func (rc *refCache) fresh(spec *ModelSpec, in map[string]*val.V, fault *OpFault,
 	}
 	key := h.Sum64()
 	if r, ok := rc.m[key]; ok {
+		return r
+	}
+	if rc.pristine {
+		r := pristineFresh(spec, in, fault)
+		rc.m[key] = r
 		return r
 	}
 	r := &refResult{}
